@@ -542,9 +542,9 @@ const c13Rule = "JSONL target lists of 1..14 lines: valid entries (plain, unknow
 
 func TestC13Stack(t *testing.T) {
 	kit.Run(t, kit.Spec[c13Case]{
-		Prop: "C13",
-		Rule: "E1, request stream of the generator stack the commands build (ipPortScanCmdOpts.newIPPortGenerator / genericScanCmdOpts.newIPPortGenerator / the icmp stack, plus arp.NewCacheRequestGenerator), in order, with errors.Is on the cause. " + c13Rule,
-		Gen:  func(t *rapid.T) c13Case { return c13Gen(t, []string{"tcp", "app", "icmp"}) },
+		Prop:  "C13",
+		Rule:  "E1, request stream of the generator stack the commands build (ipPortScanCmdOpts.newIPPortGenerator / genericScanCmdOpts.newIPPortGenerator / the icmp stack, plus arp.NewCacheRequestGenerator), in order, with errors.Is on the cause. " + c13Rule,
+		Gen:   func(t *rapid.T) c13Case { return c13Gen(t, []string{"tcp", "app", "icmp"}) },
 		Check: c13StackCheck,
 	})
 }
@@ -815,9 +815,9 @@ func c13DescribeSlots(c c13Case, slots []c13Slot) string {
 
 func TestC13Commands(t *testing.T) {
 	kit.Run(t, kit.Spec[c13Case]{
-		Prop: "C13",
-		Rule: "E2, full commands (tcp, tcp fin, udp, icmp with -f) on the virtual wire: frames written per port and error records on stderr. Per pass the probed addresses must be those of the valid entries before some offending line (or of the whole list); error records: at most one per offending entry per pass, at least one (stating its cause) per offending entry reached, exactly one in single-pass modes; destination MAC of every frame = own cache entry else gateway. " + c13Rule,
-		Gen:  func(t *rapid.T) c13Case { return c13Gen(t, []string{"tcp", "tcp fin", "udp", "icmp"}) },
+		Prop:  "C13",
+		Rule:  "E2, full commands (tcp, tcp fin, udp, icmp with -f) on the virtual wire: frames written per port and error records on stderr. Per pass the probed addresses must be those of the valid entries before some offending line (or of the whole list); error records: at most one per offending entry per pass, at least one (stating its cause) per offending entry reached, exactly one in single-pass modes; destination MAC of every frame = own cache entry else gateway. " + c13Rule,
+		Gen:   func(t *rapid.T) c13Case { return c13Gen(t, []string{"tcp", "tcp fin", "udp", "icmp"}) },
 		Check: c13CmdCheck,
 	})
 }
